@@ -603,6 +603,8 @@ def refine_droplet(
         raise TypeError("`phase_field` must be ScalarField")
     if least_squares_params is None:
         least_squares_params = {}
+    else:
+        least_squares_params = dict(least_squares_params)  # do not modify argument
     if tolerance is not None:
         for key in ["ftol", "xtol", "gtol"]:
             least_squares_params.setdefault(key, tolerance)
